@@ -1534,6 +1534,12 @@ class SpaceManager(SharedSpaceOperations):
             elif other not in self.model.global_refs.values():
                 raise ValueError("Cannot create reference '%s'" % name)
 
+        # A cells or a child space of the name in any sub space,
+        # not just in the first one that has the name
+        for subspace in self._get_subs(space):
+            if name in subspace.cells or name in subspace.named_spaces:
+                raise ValueError("Cannot create reference '%s'" % name)
+
         self._check_subs_relrefs(space, name, value, refmode)
         result = space.on_create_ref(name, value, is_derived=False,
                             refmode=refmode)
